@@ -733,6 +733,8 @@ class Symex:
                 except TypeError:
                     self.unsupported(node)
             return t_or(*[self.compare("==", x, e, node) for e in elems])
+        if coll is None or is_num(coll) or isinstance(coll, bool):
+            raise Raised("TypeError", None, node)     # ``x in None`` / ``x in 3`` is a TypeError in Python
         self.unsupported(node, f"membership in {type(coll).__name__}")
 
     def ev(self, n):
